@@ -420,50 +420,139 @@ theorem resp_kind3 (a : RespAct) (h1 : a.isNoop = false) (h2 : a.isRetry = false
 theorem resp_kind3' (a : RespAct) (h1 : a.isNoop = false) (h2 : a.isMod = false) : a.isRetry = true := by
   cases a <;> simp_all [RespAct.isNoop, RespAct.isRetry, RespAct.isMod]
 
+theorem respRuleOk_foldResp (as : List RespAct) : respRuleOk as (foldResp as) = true := by
+  have hN : (foldResp as).isNoop = as.all (·.isNoop) := by
+    unfold foldResp; rw [foldl_respPrio_isNoop]; rfl
+  unfold respRuleOk
+  simp only [Bool.and_eq_true]
+  refine ⟨?_, ?_, ?_⟩
+  · rw [hN]; simp
+  · rw [nonNoop_all_isMod, nonNoop_isEmpty, ← hN]
+    cases hall : as.all (!·.isRetry)
+    · simp
+    · have hall' : ∀ x ∈ as, x.isRetry = false := by
+        intro x hx; have := List.all_eq_true.mp hall x hx; simpa using this
+      have hU : hdrsUnion (as.map (·.hdrs)) (foldResp as).hdrs = true := by
+        apply hdrsUnion_of_lookup; intro k
+        show List.lookup k (List.foldl respPrio RespAct.noop as).hdrs = _
+        rw [(foldl_respPrio_noRetry .noop as rfl hall' k).2]
+        exact lastWriter_nil_cons k _
+      have hR := (foldl_respPrio_noRetry .noop as rfl hall' "").1
+      cases hn : (foldResp as).isNoop
+      · rw [resp_kind3 _ hn hR, hU]; rfl
+      · rw [hU]; rfl
+  · rw [nonNoop_all_isRetry, nonNoop_isEmpty, ← hN]
+    cases hall : as.all (!·.isMod)
+    · simp
+    · have hall' : ∀ x ∈ as, x.isMod = false := by
+        intro x hx; have := List.all_eq_true.mp hall x hx; simpa using this
+      have hU : hdrsUnion (as.map (·.hdrs)) (foldResp as).hdrs = true := by
+        apply hdrsUnion_of_lookup; intro k
+        show List.lookup k (List.foldl respPrio RespAct.noop as).hdrs = _
+        rw [(foldl_respPrio_noMod .noop as rfl hall' k).2]
+        exact lastWriter_nil_cons k _
+      have hR := (foldl_respPrio_noMod .noop as rfl hall' "").1
+      cases hn : (foldResp as).isNoop
+      · rw [resp_kind3' _ hn hR, hU]; rfl
+      · rw [hU]; rfl
+
 theorem respFoldOk_foldResp (pre : List RespAct) (a : RespAct) :
     respFoldOk (pre ++ [a]) (foldResp pre) (foldResp (pre ++ [a])) = true := by
   have hout : foldResp (pre ++ [a]) = respPrio (foldResp pre) a := by
     simp [foldResp, List.foldl_append]
-  have hN : (foldResp (pre ++ [a])).isNoop = (pre ++ [a]).all (·.isNoop) := by
-    unfold foldResp; rw [foldl_respPrio_isNoop]; rfl
   unfold respFoldOk
-  simp only [List.getLast?_append, List.getLast?_singleton, Option.some_or, Bool.and_eq_true]
-  refine ⟨⟨?_, ?_⟩, ?_, ?_⟩
-  · cases ha : a.isNoop
-    · simp
-    · have : a = .noop := by cases a <;> simp_all [RespAct.isNoop]
-      subst this
-      rw [hout, respPrio_noop_right]; simp [RespAct.sim_refl]
-  · rw [hN]; simp
-  · rw [nonNoop_all_isMod, nonNoop_isEmpty, ← hN]
-    cases hall : (pre ++ [a]).all (!·.isRetry)
-    · simp
-    · have hall' : ∀ x ∈ pre ++ [a], x.isRetry = false := by
-        intro x hx; have := List.all_eq_true.mp hall x hx; simpa using this
-      have hU : hdrsUnion ((pre ++ [a]).map (·.hdrs)) (foldResp (pre ++ [a])).hdrs = true := by
-        apply hdrsUnion_of_lookup; intro k
-        show List.lookup k (List.foldl respPrio RespAct.noop (pre ++ [a])).hdrs = _
-        rw [(foldl_respPrio_noRetry .noop (pre ++ [a]) rfl hall' k).2]
-        exact lastWriter_nil_cons k _
-      have hR := (foldl_respPrio_noRetry .noop (pre ++ [a]) rfl hall' "").1
-      cases hn : (foldResp (pre ++ [a])).isNoop
-      · rw [resp_kind3 _ hn hR, hU]; rfl
-      · rw [hU]; rfl
-  · rw [nonNoop_all_isRetry, nonNoop_isEmpty, ← hN]
-    cases hall : (pre ++ [a]).all (!·.isMod)
-    · simp
-    · have hall' : ∀ x ∈ pre ++ [a], x.isMod = false := by
-        intro x hx; have := List.all_eq_true.mp hall x hx; simpa using this
-      have hU : hdrsUnion ((pre ++ [a]).map (·.hdrs)) (foldResp (pre ++ [a])).hdrs = true := by
-        apply hdrsUnion_of_lookup; intro k
-        show List.lookup k (List.foldl respPrio RespAct.noop (pre ++ [a])).hdrs = _
-        rw [(foldl_respPrio_noMod .noop (pre ++ [a]) rfl hall' k).2]
-        exact lastWriter_nil_cons k _
-      have hR := (foldl_respPrio_noMod .noop (pre ++ [a]) rfl hall' "").1
-      cases hn : (foldResp (pre ++ [a])).isNoop
-      · rw [resp_kind3' _ hn hR, hU]; rfl
-      · rw [hU]; rfl
+  rw [respRuleOk_foldResp]
+  simp only [List.getLast?_append, List.getLast?_singleton, Option.some_or, Bool.and_true]
+  cases ha : a.isNoop
+  · simp
+  · have : a = .noop := by cases a <;> simp_all [RespAct.isNoop]
+    subst this
+    rw [hout, respPrio_noop_right]; simp [RespAct.sim_refl]
 
+/-! ### header entries of a fold result come from its inputs -/
+
+theorem mem_merge (a b : Hdrs) (p : String × String) (h : p ∈ merge a b) : p ∈ a ∨ p ∈ b := by
+  unfold merge at h
+  rcases List.mem_append.mp h with h | h
+  · exact Or.inl (List.mem_filter.mp h).1
+  · exact Or.inr h
+
+theorem reqPrio_hdrs_mem (a b : ReqAct) (p : String × String) (h : p ∈ (reqPrio a b).hdrs) :
+    p ∈ a.hdrs ∨ p ∈ b.hdrs := by
+  cases a <;> cases b <;> simp only [reqPrio, ReqAct.hdrs] at h ⊢ <;>
+    first
+    | exact Or.inl h
+    | exact Or.inr h
+    | exact mem_merge _ _ _ h
+
+theorem respPrio_hdrs_mem (a b : RespAct) (p : String × String) (h : p ∈ (respPrio a b).hdrs) :
+    p ∈ a.hdrs ∨ p ∈ b.hdrs := by
+  cases a <;> cases b <;> simp only [respPrio, RespAct.hdrs] at h ⊢ <;>
+    first
+    | exact Or.inl h
+    | exact Or.inr h
+    | exact mem_merge _ _ _ h
+
+theorem foldl_reqPrio_hdrs_mem (acc : ReqAct) (as : List ReqAct) (p : String × String)
+    (h : p ∈ (as.foldl reqPrio acc).hdrs) : p ∈ acc.hdrs ∨ p ∈ as.flatMap (·.hdrs) := by
+  induction as generalizing acc with
+  | nil => exact Or.inl h
+  | cons x xs ih =>
+    rw [List.foldl_cons] at h
+    rw [List.flatMap_cons, List.mem_append]
+    rcases ih _ h with h | h
+    · rcases reqPrio_hdrs_mem acc x p h with h | h
+      · exact Or.inl h
+      · exact Or.inr (Or.inl h)
+    · exact Or.inr (Or.inr h)
+
+theorem foldl_respPrio_hdrs_mem (acc : RespAct) (as : List RespAct) (p : String × String)
+    (h : p ∈ (as.foldl respPrio acc).hdrs) : p ∈ acc.hdrs ∨ p ∈ as.flatMap (·.hdrs) := by
+  induction as generalizing acc with
+  | nil => exact Or.inl h
+  | cons x xs ih =>
+    rw [List.foldl_cons] at h
+    rw [List.flatMap_cons, List.mem_append]
+    rcases ih _ h with h | h
+    · rcases respPrio_hdrs_mem acc x p h with h | h
+      · exact Or.inl h
+      · exact Or.inr (Or.inl h)
+    · exact Or.inr (Or.inr h)
+
+theorem hdrsSafe_of_subset (h h' : Hdrs) (hs : hdrsSafe h = true) (hsub : ∀ p ∈ h', p ∈ h) :
+    hdrsSafe h' = true := by
+  unfold hdrsSafe at hs ⊢
+  rw [List.all_eq_true] at hs ⊢
+  intro p hp; exact hs p (hsub p hp)
+
+theorem foldReq_safe (as : List ReqAct) (hs : hdrsSafe (as.flatMap (·.hdrs)) = true) :
+    hdrsSafe (foldReq as).hdrs = true := by
+  apply hdrsSafe_of_subset _ _ hs
+  intro p hp
+  rcases foldl_reqPrio_hdrs_mem .noop as p hp with h | h
+  · cases h
+  · exact h
+
+theorem foldResp_safe (as : List RespAct) (hs : hdrsSafe (as.flatMap (·.hdrs)) = true) :
+    hdrsSafe (foldResp as).hdrs = true := by
+  apply hdrsSafe_of_subset _ _ hs
+  intro p hp
+  rcases foldl_respPrio_hdrs_mem .noop as p hp with h | h
+  · cases h
+  · exact h
+
+/-- The rule does not look at `HeadersToRemove`. -/
+theorem reqFoldOk_eraseRm (ins : List ReqAct) (out : ReqAct) (h : reqFoldOk ins out = true) :
+    reqFoldOk ins out.eraseRm = true := by
+  cases out <;> first | exact h | skip
+  rename_i hd rm b
+  unfold reqFoldOk at h ⊢
+  cases hfe : firstEarly ins with
+  | none => simpa [hfe, ReqAct.eraseRm, ReqAct.isEarly, ReqAct.isNoop, ReqAct.isMod, ReqAct.hdrs] using h
+  | some e =>
+    rw [hfe] at h
+    obtain ⟨_, _, _, _, he⟩ := firstEarly_some ins e hfe
+    cases e <;> simp_all [ReqAct.sim, ReqAct.isEarly]
 
 /-! ### the object-level fold -/
 
